@@ -35,6 +35,11 @@ K PV k_tb_get(void const* p) { return (PV) static_cast<TB const*>(p)->get(); }
 K void k_ta_set(void* p, PV x) { *static_cast<TA*>(p) = TA((int)x); }
 K void k_tb_set(void* p, PV x) { *static_cast<TB*>(p) = TB((int)x); }
 
+// where the alternatives live inside the owners (all alternatives of a variant share one address): measured on temporaries
+// holding the int / nullopt alternative where there is one, so the ledger is not touched
+K u64 k_v_alt_off() { V const t(etl::in_place_index<2>, 0); return off_of(&t, etl::get_if<2>(&t)); }
+K u64 k_o_alt_off() { etl::optional<int> const t(0); static_assert(sizeof(etl::optional<int>) <= sizeof(O)); return off_of(&t, &*t); } // int and TA have the same alignment
+K u64 k_x_alt_off() { etl::expected<int, int> const t(etl::in_place, 0); return off_of(&t, &*t); }
 // =====================================================================================================================
 // optional<TA>
 // =====================================================================================================================
